@@ -264,6 +264,10 @@ class SplineSystem(object):
             for a in range(pd):
                 ops += [['insert_knot', a, 0.5], ['remove_knot', a, 0.5]]
             ops += [['refine', 0]]
+            if pd >= 2:
+                # a request whose first direction is fine and whose second one is refused (density 1.5): whatever part of it is
+                # carried out, the object must remain one a fresh object can equal
+                ops += [['refine_bad_tail']]
             if pd == 1:
                 ops.append(['reverse'])
             if pd == 2:
@@ -364,6 +368,8 @@ class SplineSystem(object):
                 prm = [0] * pd
                 prm[op[1]] = 1
                 operations.refine_knotvector(obj, prm)
+            elif k == 'refine_bad_tail':
+                operations.refine_knotvector(obj, [1, 1.5] + [0] * (pd - 2))
             elif k == 'reverse':
                 obj.reverse()
             elif k == 'transpose':
@@ -415,14 +421,27 @@ class SplineSystem(object):
         rc = dict(mode='history', system='sampling' if isinstance(self, SamplingSystem) else 'spline', kind=self.kind,
                   rational=self.rational,
                   seed_index=_seeds(self.kind, self.rational).index(self.desc), history=hist + [op])
-        if isinstance(obs, str) and obs.startswith('EXC:'):
+        rejected = isinstance(obs, str) and obs.startswith('EXC:')
+        if rejected:
+            # a rejected request: whatever definition the object reports now, its views must be those of that definition
             ctx.extra['rejected_ops'] += 1
-            return
+            feats['rejected'] = True
+            if op[0] == 'read':
+                return
+            pre = None
         D = self.definition(obj)
         if not all(n >= p + 1 for n, p in zip(D['sizes'], D['degrees'])) or len(D['P']) != _prod(D['sizes']):
             ctx.extra['unbuildable_definitions'] += 1     # no fresh object with this definition exists
             return
-        fresh = self.fresh(D)
+        try:
+            fresh = self.fresh(D)
+        except Exception:
+            # the reported definition is one no fresh object can have (e.g. a knot vector the setter refuses): no oracle.
+            # (Whether a REFUSED request may leave such a state behind is a question of failure atomicity, which the property
+            # does not promise and the pinned tree does not provide - e.g. insert_knot with a parameter outside the domain of a
+            # curve that keeps its own knot range grows the control net and then fails in the knot vector setter.)
+            ctx.extra['unbuildable_definitions'] += 1
+            return
         if op[0] == 'read':
             exp = read(fresh, op[1])
             ctx.check('C12.%s.read_after_history.%s' % (self.kind, op[1]), same(obs, exp), rc, feats, exp, obs)
@@ -441,7 +460,10 @@ class SplineSystem(object):
         # deep-copy independence
         if pre is not None and all(n >= p + 1 for n, p in zip(pre['D0']['sizes'], pre['D0']['degrees'])):
             c, D0 = pre['copy'], pre['D0']
-            f0 = self.fresh(D0)
+            try:
+                f0 = self.fresh(D0)
+            except Exception:
+                return          # the state before the edit had no fresh counterpart either: no oracle for the copy checks
             for r in self.readers(D0):
                 got, exp = _safe_read(c, r), _safe_read(f0, r)
                 ctx.check('C12.%s.copy_independent.original_edited' % self.kind, same(got, exp),
@@ -582,6 +604,9 @@ class ContainerSystem(object):
         ops = [['read', r] for r in self.readers()]
         if len(obj) < 3:
             ops += [['add', 1], ['add', 2]]
+            # a list whose second entry the container rejects (2-D geometry into a 3-D container): whatever part of the request is
+            # carried out, the aggregates must describe the elements the container then holds
+            ops += [['add_list_bad_tail', 2]]
         ops += [['delta', 0.5], ['delta', 0.34], ['sample_size', 4]]
         if self.kind == 'surface':
             ops += [['tessellate_force']]
@@ -603,6 +628,10 @@ class ContainerSystem(object):
                 return self.read(obj, op[1])
             if k == 'add':
                 obj.add(self._elem(op[1]))
+            elif k == 'add_list_bad_tail':
+                bad = S.build(A.shape_desc([[0, 0, 1, 1]], [1], False, 2, 'coded') if self.kind == 'curve' else
+                              A.shape_desc([[0, 0, 1, 1], [0, 0, 1, 1]], [1, 1], False, 2, 'coded'), self.seed)
+                obj.add([self._elem(op[1]), bad])
             elif k == 'delta':
                 obj.delta = op[1]
             elif k == 'sample_size':
@@ -662,8 +691,9 @@ class ContainerSystem(object):
         feats = dict(kind=self.kind, container=True, op=op[0], element_edited=edited, depth=len(hist) + 1)
         rc = dict(mode='history', system='container', kind=self.kind, history=hist + [op])
         if isinstance(obs, str) and obs.startswith('EXC:'):
+            # a rejected request: whatever the container holds now is its definition, and its views must describe that
             ctx.extra['rejected_ops'] += 1
-            return
+            feats['rejected'] = True
         D = self.definition(obj)
         fresh = self.fresh(D)
         obl = 'C12.container.%s.%s' % (self.kind, 'element_edit' if edited else 'stale')
